@@ -166,6 +166,23 @@ func checkC10(c *Ctx) (int, error) {
 	}
 	for _, cs := range cases {
 		cs.Data.Len += 1
+	}
+	// Flush directly behind the longest codes of a block whose Huffman tree is as deep as the format allows
+	// (the bit accumulator of the encoders is at its fullest there), for a range of lengths
+	for _, base := range []int{20000, 60000} {
+		for v := 0; v < 48; v++ {
+			n := base + v
+			set := accelSettings[v%len(accelSettings)]
+			if v%4 != 3 {
+				set = accelSettings[4*((v/4)%2)]
+			}
+			cs := &WCase{ID: fmt.Sprintf("C10-deep-%d", n), Set: set, Tag: settingTag(set) + "|deep",
+				Data: DataSpec{Class: "deepclust", Seed: rng.Int63n(1 << 30), Len: n + 1, Period: n},
+				Ops:  []Op{{Op: "W", N: n}, {Op: "F"}, {Op: "W", N: 1}, {Op: "C"}}}
+			cases = append(cases, cs)
+		}
+	}
+	for _, cs := range cases {
 		c.ev.nontrivial(histString(cs.Ops) + "|" + cs.Tag)
 	}
 	c.ev.Rule = fmt.Sprintf("every history of %d calls over {Write(0|small|large), Flush} with at least one Flush (TLC, WriterModel), followed by Write(1) and Close, each on %d of %d settings (flate/gzip/zlib, levels -2..9, both windows, dictionaries); every Flush event is judged; distinct by (concrete history, setting)", maxLen, per, len(allWSettings))
@@ -173,7 +190,16 @@ func checkC10(c *Ctx) (int, error) {
 	for _, cs := range spread(cases) {
 		c.ev.sample(map[string]interface{}{"history": histString(cs.Ops), "setting": cs.Tag, "data": cs.Data})
 	}
-	return c.writerRun("c10", c.spreadArch(cases, false), true)
+	deep := 0
+	for _, cs := range cases {
+		if cs.Data.Class == "deepclust" && cs.Data.Period > 0 {
+			deep++
+		}
+	}
+	// (the targeted cases run at every acceleration level, the histories round-robin)
+	run := c.spreadArch(cases[:len(cases)-deep], false)
+	run = append(run, c.spreadArch(cases[len(cases)-deep:], true)...)
+	return c.writerRun("c10", run, true)
 }
 
 // ---------------------------------------------------------------------------
@@ -257,9 +283,12 @@ func checkC01(c *Ctx) (int, error) {
 		for _, sw := range []struct {
 			class string
 			lo    int
-		}{{"uniform", 8100}, {"uniform", 16290}, {"nearuniform", 8100}, {"digits", 19400}, {"fib", 12000}} {
+		}{{"uniform", 8100}, {"uniform", 16290}, {"nearuniform", 8100}, {"digits", 19400}, {"fib", 12000}, {"deepclust", 30000}, {"deepclust", 65480}} {
 			for n := sw.lo; n < sw.lo+110; n++ {
 				set := accelSettings[(n+rep)%len(accelSettings)]
+				if sw.class == "deepclust" && n%4 != 3 {
+					set = accelSettings[4*((n/4)%2)] // mostly the Huffman-only encoder, whose codes are the longest
+				}
 				cs := &WCase{ID: fmt.Sprintf("C01-sweep-%s-%d-%d", sw.class, n, rep), Set: set, Tag: settingTag(set), Data: DataSpec{Class: sw.class, Seed: rng.Int63n(1 << 30), Len: n}}
 				cs.Ops = []Op{{Op: "W", N: n}, {Op: "C"}}
 				cases = append(cases, cs)
